@@ -480,6 +480,47 @@ pub fn run(ctx: &mut Ctx) {
             );
         }
     }
+    // (5) a syntax error whose offending token is long and ends in a multi-byte character (the message quotes it)
+    let mut long_jobs = vec![];
+    for pad in 30..=50usize {
+        for ch in ["\u{e9}", "\u{1F600}", "\u{85}"] {
+            for shape in ["string", "comment"] {
+                long_jobs.push((pad, ch, shape));
+            }
+        }
+    }
+    let long_res: Vec<(usize, &str, &str, CliRun)> = long_jobs
+        .par_iter()
+        .map(|(pad, ch, shape)| {
+            let body = format!("{}{}", "x".repeat(*pad), ch);
+            let text = if *shape == "string" {
+                format!("FUNCTION_BLOCK F\nVAR x : INT; END_VAR\n  x := 1 '{}';\nEND_FUNCTION_BLOCK\n", body)
+            } else {
+                format!("FUNCTION_BLOCK F\nVAR x : INT; END_VAR\n  x := INT(* {} *)#5;\nEND_FUNCTION_BLOCK\n", body)
+            };
+            let dir = scratch.sub(&format!("lt{}-{}-{}", pad, ch.escape_unicode(), shape));
+            let tmp = scratch.sub(&format!("ltt{}-{}-{}", pad, ch.escape_unicode(), shape));
+            let p = dir.join("f.st");
+            std::fs::write(&p, text).unwrap();
+            let r = cli::run(&["check", p.to_str().unwrap()], &tmp, Duration::from_secs(30));
+            let _ = std::fs::remove_dir_all(&dir);
+            (*pad, *ch, *shape, r)
+        })
+        .collect();
+    for (pad, ch, shape, c) in &long_res {
+        ctx.evaluations += 1;
+        ctx.transitions += 1;
+        ctx.traces += 1;
+        ctx.distinct(&format!("long-token|{}|{}|{}", pad, ch.escape_unicode(), shape));
+        let consistent = c.exit != Some(0) && !c.has_ok_line && !c.diags.is_empty() && !c.crashed();
+        if !consistent {
+            ctx.fail(
+                &format!("long-offending-token/{}#{}", shape, triple(c)),
+                &format!("a syntax error at a {} of {} characters ending in {}: `check` gives {}", shape, pad + 1, ch.escape_unicode(), c.summary()),
+                json!({"mode":"count-sweep","kind":"long-token","count":pad}),
+            );
+        }
+    }
     ctx.bounds.insert("count_sweep".into(), json!("k faults in one file for k = 0..520, 767, 768, 1023, 1024, 1025, 4096 (semantic: subrange limits; lexical: invalid character) through check and tokenize; k = 1, 2, 255..257, 511..513 faulty files as a directory and as a list"));
 }
 
